@@ -505,7 +505,7 @@ pub fn main(args: &Args, ext: &Externs) -> i32 {
         .cov("exhaustive", true)
         .cov("perturbed_rejected_by_the_emitted_assertion", rejected)
         .cov("correct_cases_accepted", accepted_ok)
-        .cov("second_family", json!({"rule": "every typed addition of every definition of engine B's family (quick: the 44-definition zoo; thorough: the 304 definitions of engine B's quick family) is in turn recorded with {size-1, size+1, 2*size, align/2, 2*align, may-be-uninit flag} while the rest of the history (removals, cancelled additions, re-used names, strategies, flags) stays; same oracle", "definitions": fam_defs.len(), "evaluations": fam_n, "rejected_by_the_emitted_assertion": fam_rejected}))
+        .cov("second_family", json!({"rule": "every typed addition of every definition of engine B's family (quick: the zoo; thorough: engine B's quick family) is in turn recorded with {size-1, size+1, 2*size, align/2, 2*align, may-be-uninit flag} while the rest of the history (removals, cancelled additions, re-used names, strategies, flags) stays; same oracle", "definitions": fam_defs.len(), "evaluations": fam_n, "rejected_by_the_emitted_assertion": fam_rejected}))
         .cov("types", ts.iter().map(|t| json!([t.name, t.size, t.align, t.copy])).collect::<Vec<_>>());
     report.assume("the compiler (rustc, --emit=metadata: type checking and constant evaluation) is the oracle");
     report.finish()
